@@ -123,3 +123,19 @@ IP = {
     ],
 }
 UNITS["ip"] = IP
+
+# ---------------------------------------------------------------------------------------------------------------- window nodes (C17)
+WINDOWS = {
+    "module": "GenWindows", "out": "Gen_windows.v",
+    "fields": {"store": M, "strides": N, "_monomial_idx": ("IDX",), "output_dim": N, "buffer": ("DEQUE",), "delay": N, "axis": OPQ},
+    "deque_maxlen": {"buffer": "S o_delay"},          # delay.initialize: deque(initial_values, maxlen=node.delay + 1)
+    "functions": [
+        {"name": "forward", "file": "reservoirpy/nodes/reservoirs/nvar.py", "coqname": "nvar_forward", "objects": ["node"],
+         "params": {"node": "OBJ", "x": V("row")}},
+        {"name": "forward", "file": "reservoirpy/nodes/delay.py", "coqname": "delay_forward", "objects": ["node"], "allow_kwargs": True,
+         "params": {"node": "OBJ", "x": V("row")}},
+        {"name": "concat_forward", "file": "reservoirpy/nodes/concat.py", "objects": ["concat"],
+         "params": {"concat": "OBJ", "data": ("LISTV",)}},
+    ],
+}
+UNITS["windows"] = WINDOWS
